@@ -13,10 +13,10 @@
                     top-level field is the original's, the field being cut is absent or its
                     scalar value is shorter), or
                     (b) exactly one closing bracket was missing: t = F[0..p) ++ Object .. End p
-                    where p is the index of the top-level container being cut; the tokens before p are
+                    where F[p] is the top-level container being cut (a container token); the tokens before p are
                     literally F's, the body is F's body cut short, and the parser closed it
                     (the documented one-missing-bracket tolerance of the text format). *)
-From JV Require Import Bytes Tables TextTok TextTape TextDoc.
+From JV Require Import Bytes Tables TextTok TextTape TextTapeWf TextDoc.
 Open Scope nat_scope.
 
 Definition bytes_prefix (a b : bytes) : Prop := exists r, b = a ++ r.
@@ -35,7 +35,7 @@ Definition consistent_tape (F t : ttape) : Prop :=
     0 < p /\
     t = firstn p F ++ TObject (p + 1 + length body) false :: body ++ [TEnd p] /\
     length (firstn p F) = p /\
-    nth_error F p = Some y /\
+    nth_error F p = Some y /\ cont_end y <> None /\
     prefix_cut body (skipn (S p) F).
 
 (* the result of parsing a truncated rendering of d *)
